@@ -894,7 +894,8 @@ namespace
 				extSize = 0;
 			}
 
-			if (size == 0 || binaryStreamReader.SetPosition(binaryStreamReader.GetPosition() + size))
+			// Seeking beyond the end of a stream can succeed (e.g. for files), make sure that the last skipped byte exists
+			if (size == 0 || (binaryStreamReader.SetPosition(binaryStreamReader.GetPosition() + size - 1) && binaryStreamReader.ReadByte().has_value()))
 			{
 				if (extSize)
 				{
